@@ -43,6 +43,26 @@ SELFTEST = [
     {"mutation": "heartbeat retain: `peer_score < 0.0` -> `peer_score < -10.0`", "caught_by": "remove/heartbeat drops members with negative score"},
 ]
 
+# one-edit source variants for the thorough-tier sensitivity self-test (vrules/selftest.py); each must be reported
+MUTANTS = [
+    {"name": 'mesh-low fill accepts slightly negative scores', "file": 'protocols/gossipsub/src/behaviour.rs',
+     "find": '                            && scores.get(peer).map(|r| r.score).unwrap_or_default() >= 0.0\n',
+     "replace": '                            && scores.get(peer).map(|r| r.score).unwrap_or_default() >= -1.0\n',
+     "expect": 'heartbeat#1 .*score not negative', "why": 'negative-score peer grafted by the heartbeat'},
+    {"name": 'GRAFT accepted at mesh_n_high', "file": 'protocols/gossipsub/src/behaviour.rs',
+     "find": '            if peers.len() >= mesh_n_high {\n                to_prune_topics.insert(topic_hash.clone());',
+     "replace": '            if peers.len() > mesh_n_high {\n                to_prune_topics.insert(topic_hash.clone());',
+     "expect": 'limit/handle_graft: GRAFT refused', "why": 'mesh grows to mesh_n_high + 1 through GRAFTs'},
+    {"name": 'subscription path ignores the backoff', "file": 'protocols/gossipsub/src/behaviour.rs',
+     "find": '                        && !self\n                            .backoffs\n                            .is_backoff_with_slack(topic_hash, propagation_source)\n',
+     "replace": '',
+     "expect": 'handle_received_subscriptions: not backed off', "why": 'a peer that just pruned us is re-grafted when it re-subscribes'},
+    {"name": 'join random fill accepts explicit peers', "file": 'protocols/gossipsub/src/behaviour.rs',
+     "find": '                    !added_peers.contains(peer)\n                        && !self.explicit_peers.contains(peer)\n',
+     "replace": '                    !added_peers.contains(peer)\n',
+     "expect": 'join#2 .*not explicit', "why": 'explicit peer put into the mesh on subscribe'},
+]
+
 
 def _loc(b):
     return "%s:%d" % (b.file, b.line)
